@@ -12,10 +12,18 @@ from typing import Any
 from .. import core, escommon
 from ..gen import surface
 
-MODULES = ["ESV.Props.C01"]
+MODULES = ["ESV.Props.C01", "ESV.Props.C01Backend"]
 THEOREMS = ["ESV.Beh.check_sound", "ESV.Beh.validate_sound", "ESV.C01.routine_validated", "ESV.C01.machines_validated",
             "ESV.C01.equivalent_halting_trace", "ESV.C01.jump_always_goes", "ESV.C01.flow_ending_ops_stop",
-            "ESV.C01.branch_case_call_are_tests", "ESV.C01.tables_tied"]
+            "ESV.C01.branch_case_call_are_tests", "ESV.C01.tables_tied",
+            # back end of the compiler preserves behaviour, for all well-formed labelled code (design_notes/C01_backend.md)
+            "ESV.C01Backend.backend_preserves", "ESV.C01Backend.strip_preserves",
+            "ESV.C01Backend.finalize_remover_preserves", "ESV.C01Backend.backend_preserves_noTrail",
+            "ESV.Beh.sim_of_rel", "ESV.Beh.equiv_of_map",
+            "ESV.C01Backend.ctx_jump_counterexample", "ESV.C01Backend.ctx_label_counterexample",
+            "ESV.C01Backend.duplicate_label_counterexample", "ESV.C01Backend.cond_trailing_counterexample",
+            "ESV.C01Backend.duplicate_offset_counterexample", "ESV.C01Backend.raw_jump_counterexample",
+            "ESV.C01Backend.jump_root_counterexample"]
 
 
 def table_mismatch(ast: dict, res: dict) -> str | None:
@@ -54,6 +62,44 @@ def check_one(ast: dict, text: str, res: dict, drv: core.Driver) -> list[tuple[s
         if v["verdict"] in escommon.BAD_VERDICTS:
             out.append((classify(ast, v), f"routine {v['r']}: {v['verdict']} {v.get('why', '')} after tests {v.get('path')}", v))
     return out
+
+
+def has_jump_in_with(text: str) -> bool:
+    """a jump / control statement directly in a with-block: the one shape for which `WFL` is known to be false
+    (design_notes/C01_backend.md, `ctx_jump_counterexample`); the generators do not produce it"""
+    import re
+    return re.search(r"with\s*\([^)]*\)\s*\{\s*(jump|break_loop|continue|break|return|end|hold)\b", text) is not None
+
+
+def wfl_tie(run: core.Run, drv: Any, ok_cases: list, jobs: int) -> Counter:
+    """`comp.wfl`: the decidable hypothesis `WFL` of `backend_preserves`, evaluated by the Lean driver on the labelled code
+    the model's front end (tied to the real compiler by C03) produces for every generated program that compiles."""
+    from ..gen import complower
+    st: Counter = Counter()
+    reqs = []
+    keep = []
+    for c, r in ok_cases:
+        try:
+            reqs.append({"op": "comp.wfl", "prog": complower.program(c["ast"], r.get("macro_order"))})
+            keep.append(c)
+        except Exception as e:  # noqa
+            st["not_lowered"] += 1
+    reps = drv.batch_parallel(reqs, jobs) if reqs else []
+    shown = 0
+    for c, rep in zip(keep, reps):
+        if "error" in rep:
+            st["frontend_error:" + str(rep["error"])[:40]] += 1
+        elif rep.get("wfl") is True:
+            st["wfl_true"] += 1
+        else:
+            failing = ",".join(k for k in ("distinct", "labels", "raw", "root", "ctx", "cond") if rep.get(k) is False)
+            st["wfl_false:" + failing] += 1
+            if failing == "ctx" and has_jump_in_with(c["text"]):
+                continue  # known shape, outside the theorem's hypothesis
+            shown += 1
+            if shown <= 3:
+                run.broken_tie("WFL (hypothesis of backend_preserves) is false on the front-end model's output", {"text": c["text"], "conjuncts": rep})
+    return st
 
 
 def run(run: core.Run) -> int:
@@ -127,6 +173,10 @@ def run(run: core.Run) -> int:
                     run.violation(sb[0][0], sb[0][1], {"text": st, "ops": sr.get("ops"), "verdict": sb[0][2], "original_text": c["text"]})
                 else:
                     run.violation(bad[0][0], bad[0][1], {"text": c["text"], "ops": r["ops"], "verdict": bad[0][2]})
+    # hypothesis of the back-end theorem (ESV.C01Backend.backend_preserves) on what the front-end model produces
+    wfl_stats: Counter = Counter()
+    if prep["driver_ok"]:
+        wfl_stats = wfl_tie(run, drv, ok_cases, jobs)
     if not prep["proofs_ok"] or not aud["ok"] or not prep["driver_ok"]:
         run.broken_tie("Lean obligations of C01 do not check (build/audit/table tie)", {"theorems": THEOREMS, "log": prep["log"][-3000:], "audit": {k: v for k, v in aud.items() if k != "theorems"}})
     cov = {
@@ -139,7 +189,7 @@ def run(run: core.Run) -> int:
         "checker_cmd": "lake build ESV.Props.C01; esvdrive beh.validate (search + verified check)",
         "trusted_base": ["Lean 4.33 kernel + propext/Classical.choice/Quot.sound", "Lean compiler for executing validate in the driver",
                          "harness lowering table harness/gen/surface.py (spec reading) and printer/astdump glue (cross-checked per program)"],
-        "theorems": THEOREMS, "axioms": aud.get("theorems", {}), "tables": prep.get("tables"), "glue_mismatches": glue_bad,
+        "theorems": THEOREMS, "axioms": aud.get("theorems", {}), "tables": prep.get("tables"), "glue_mismatches": glue_bad, "backend_wfl": dict(wfl_stats),
     }
     return run.finish("translation_validation", cov, [
         "Src.sem (lean/ESV/Src/Sem.lean + harness/gen/surface.py lowering) is this project's reading of docs/language_spec.rst",
